@@ -169,8 +169,9 @@ Definition lazy_leaf (f : file) : xst := XL (f_id f) (t_new (f_ents f)) lz_new.
 
 (* MemTable::range_scan: BoundsCursor::new(SkipListIteratorWrapper{ skiplist.iter() }, lo, hi);
    then range_scan calls mem_scan.seek_to_first() once more *)
+(* (it is a child of the depth-3 merge below, so its own child cursor is the depth-1 record) *)
 Definition mem_leaf (lo hi : bound) (ml : N * list entry) : xst :=
-  c_first (xcur 1) (XB lo hi (b_new (xcur 0) lo hi (XG (fst ml) (g_new (snd ml))))).
+  c_first (xcur 2) (XB lo hi (b_new (xcur 1) lo hi (XG (fst ml) (g_new (snd ml))))).
 
 (* Version::range_scan *)
 Definition version_scan (lo hi : bound) (v : list (list file)) : xst :=
